@@ -55,6 +55,11 @@ PROP = dict(
             job("htlcswitch", "^TestVerifC07Switch$", [_SW], 2000, shards=6, timeout=900,
                 env=dict(VERIF_C07_SWSTEPS=60)),
             job("htlcswitch", "^TestVerifC07Race$", [_RACE], 800, shards=4, timeout=900, race=True),
+            # the same machines on lnd's SQL-backed kvdb (sqlbase over sqlite)
+            job("htlcswitch", "^TestVerifC07CircuitMap$", [_CM], 300, shards=8, timeout=1200,
+                tags="verif kvdb_sqlite", env=dict(VERIF_C07_STEPS=50)),
+            job("htlcswitch", "^TestVerifC07Switch$", [_SW], 150, shards=6, timeout=1200,
+                tags="verif kvdb_sqlite", env=dict(VERIF_C07_SWSTEPS=40)),
         ],
     ),
 )
